@@ -38,6 +38,7 @@ pub fn big_cfg(r: &mut Rng, which: u64) -> RunCfg {
         status: 0,
         label: r.chance(1, 4),
         tail_taken: *r.pick(&[0u8, 0, 1, 2, 5]),
+        dirty_medium: false,
     };
     RunCfg {
         vol,
